@@ -69,8 +69,8 @@ from checks import c21 as G
 RUST = ("cmd-py",)
 THEOREMS = [
     "uncommit_commit_id", "uncommit_tip", "uncommit_revno_ok", "uncommit_pending",
-    "filterParents_head", "filterParents_sub", "filterParents_keeps_heads", "uncommit_tree_basis_partial",
-    "uncommit_to_null_with_merges_witness", "tags_dropped_iff", "tags_after_uncommit", "tags_kept",
+    "filterParents_head", "filterParents_sub", "filterParents_keeps_heads", "uncommit_tree_basis",
+    "tags_dropped_iff", "tags_after_uncommit", "tags_kept",
     "tags_on_new_ancestry_survive", "local_uncommit_master_tags_witness",
 ]
 RULE = ("scenario = random DAG committed through a real 2a working tree; cases = every (tip T, depth d<=revno(T)) "
